@@ -1,6 +1,10 @@
-"""Tables for C02: which Python type each XSD built-in decodes to, derived
-from the behaviour of the classes in suds.xsd.sxbuiltin.Factory.tags (imported
-from /repo's working tree).
+"""Tables for C02, read from /repo's working tree on every run:
+  * which Python type each XSD built-in decodes to, derived from the behaviour
+    of the classes in suds.xsd.sxbuiltin.Factory.tags (builtin_tags);
+  * the string constants the reply path compares against (SOAP 1.1/1.2
+    envelope namespaces, the xsi and xml namespaces), the attribute namespaces
+    AttrList.skip filters (probed on the real class), umx.core.reserved, and
+    the names of the built-ins (builtin_names).
 
 The built-ins are numbered by their position in XSD_BUILTINS below (a fixed
 list written from XML Schema Part 2, not read from the code); the generated
